@@ -312,6 +312,7 @@ def run(ctx):
             ('--timeout-cc nan', ['-c', ' '.join(cmd), '--timeout-cc', 'nan', good, out] + cmd, mkinv(has_cc=1, limits_ok=0)),
             ('--memout too large', ['--memout', '20000000000000', good, out] + cmd, mkinv(limits_ok=0)),
             ('input file is not valid UTF-8', [badutf, out] + cmd, mkinv(in_decodable=0)),
+            ('input file is not valid UTF-8, --parser-test', ['--parser-test', badutf, out], mkinv(in_decodable=0, parser_test=1, has_cmd=0)),
             ('cross-check golden run lacks --match-out-cc', ['-c', ' '.join(cmd), '--match-out-cc', 'nosuchstring', good, out] + cmd, mkinv(has_cc=1, golden_has_match=0)),
             ('cross-check golden run lacks --match-err-cc', ['-c', ' '.join(cmd), '--match-err-cc', 'nosuchstring', good, out] + cmd, mkinv(has_cc=1, golden_has_match=0)),
             ('several usage errors at once', ['-j', '0', '-c', noexec, good, good, noexec], mkinv(out_is_in=1, cmd_exec=0, has_cc=1, cc_exec=0, jobs_ok=0)),
